@@ -13,7 +13,7 @@ func init() {
 		ID:    "C18",
 		Title: "Watchable/Future/Lazy/xsync.Map: latest value always seen, typed map = sync.Map",
 		Rules: []*Rule{
-			{ID: "C18.assert-safe", Floor: 6, Clause: "every type assertion whose operand comes from a sync.Map result (or a Range callback argument) is in comma-ok form: a nil interface fails x.(V) for every V",
+			{ID: "C18.assert-safe", Floor: 3, Clause: "every type assertion whose operand comes from a sync.Map result (or a Range callback argument) is in comma-ok form: a nil interface fails x.(V) for every V",
 				Run: ruleAssertSafe},
 			{ID: "C18.map-delegates", Floor: 9, Clause: "each typed Map method calls the same-named sync.Map method exactly once with its own parameters in order and returns sync.Map's ok/loaded result",
 				Run: ruleMapDelegates},
@@ -47,6 +47,22 @@ func fromSyncMap(v ssa.Value, fn *ssa.Function) (bool, string) {
 			}
 		}
 	case *ssa.Parameter:
+		// parameter of an in-package helper (typedOrZero(x any)) that is fed sync.Map results by its callers
+		if fn.Parent() == nil && theCtx != nil {
+			idx := -1
+			for i, p := range fn.Params {
+				if p == x {
+					idx = i
+				}
+			}
+			for _, site := range callSitesOf(theCtx, fn) {
+				if idx >= 0 && idx < len(site.Call.Args) {
+					if ok, src := fromSyncMap(resolveVal(site.Call.Args[idx]), site.Parent()); ok {
+						return true, src + " (via " + fn.Name() + ")"
+					}
+				}
+			}
+		}
 		// parameter of a closure handed to sync.Map.Range
 		if fn.Parent() != nil {
 			if mc := makeClosureOf(fn); mc != nil {
@@ -65,7 +81,10 @@ func fromSyncMap(v ssa.Value, fn *ssa.Function) (bool, string) {
 	return false, ""
 }
 
+var theCtx *Ctx
+
 func ruleAssertSafe(c *Ctx, r *R) {
+	theCtx = c
 	for _, fn := range c.Funcs {
 		if rootFn(fn).Pkg != c.SSA["xsync"] {
 			continue
@@ -285,36 +304,56 @@ func ruleWatchable(c *Ctx, r *R) {
 		r.undecided("xsync.Watchable|missing", token.NoPos, "anchor not found")
 		return
 	}
-	// Set: new cell with t = param and c = fresh MakeChan; Swap; close(old.c) iff old != nil
-	var cell *ssa.Alloc
-	okT, okC := false, false
+	// Set: new cell with t = param and c = fresh MakeChan (possibly built by a constructor helper); Swap; close(old.c) iff old != nil
 	var swap *ssa.Call
 	instrs(set, func(b *ssa.BasicBlock, i int, in ssa.Instruction) {
-		switch x := in.(type) {
-		case *ssa.Store:
-			if fa, ok := x.Addr.(*ssa.FieldAddr); ok {
-				if al, ok := fa.X.(*ssa.Alloc); ok {
+		if x, ok := in.(*ssa.Call); ok && isCallTo(&x.Call, "sync/atomic", "Pointer", "Swap") {
+			swap = x
+		}
+	})
+	okT, okC, okSwap := false, false, false
+	if swap != nil && len(swap.Call.Args) == 2 {
+		arg := swap.Call.Args[1]
+		var helperCall *ssa.Call
+		if hc, ok := resolveVal(arg).(*ssa.Call); ok {
+			helperCall = hc
+		}
+		for _, v := range throughHelper(arg) {
+			al, ok := v.(*ssa.Alloc)
+			if !ok {
+				continue
+			}
+			okSwap = true
+			for _, ref := range refsOf(al) {
+				fa, ok := ref.(*ssa.FieldAddr)
+				if !ok {
+					continue
+				}
+				for _, r2 := range refsOf(fa) {
+					st, ok := r2.(*ssa.Store)
+					if !ok {
+						continue
+					}
 					switch fieldName(fa.X.Type(), fa.Field) {
 					case "t":
-						if x.Val == ssa.Value(set.Params[1]) {
+						val := st.Val
+						if helperCall != nil {
+							val = argOf(val, []*ssa.Call{helperCall})
+						}
+						if val == ssa.Value(set.Params[1]) {
 							okT = true
-							cell = al
 						}
 					case "c":
-						if _, ok := x.Val.(*ssa.MakeChan); ok {
+						if _, ok := st.Val.(*ssa.MakeChan); ok {
 							okC = true
 						}
 					}
 				}
 			}
-		case *ssa.Call:
-			if isCallTo(&x.Call, "sync/atomic", "Pointer", "Swap") {
-				swap = x
-			}
 		}
-	})
+	}
 	r.ok(okT && okC, "xsync.Watchable.Set|fresh-cell", set.Pos(), "Set must build a new cell holding the new value and a freshly made channel")
-	r.ok(swap != nil && cell != nil && len(swap.Call.Args) == 2 && swap.Call.Args[1] == ssa.Value(cell), "xsync.Watchable.Set|swaps-new-cell", set.Pos(), "Set must atomically Swap the new cell in (so exactly one Set observes each previous cell)")
+	r.ok(okSwap, "xsync.Watchable.Set|swaps-new-cell", set.Pos(), "Set must atomically Swap the new cell in (so exactly one Set observes each previous cell)")
 	nClose := 0
 	instrs(set, func(b *ssa.BasicBlock, i int, in ssa.Instruction) {
 		call, ok := in.(*ssa.Call)
